@@ -1,5 +1,6 @@
 import UberjobModel.Lemmas.CacheHistory
 import UberjobModel.Lemmas.ExecFinal
+import UberjobModel.Lemmas.ExecNorm
 import UberjobModel.Props.C04
 /-!
 # C03 — an incremental run gives the same outputs and stored values as from scratch
@@ -122,6 +123,71 @@ theorem C03_end_to_end {P : Input} {w0 : World} {F : Option Int} {c0 : Int} (S :
         have := (hall _).mpr (engine_of_final hk (by simpa [PN.isLit] using hl'))
         simp only [XSt.get, hl', Bool.false_eq_true, if_false, I.origOk o this hl' (by rw [hr]; simp), Option.getD_some]
 
+open Uberjob.Phys Uberjob.Exec in
+/-- **The same with NORMALISING stores** — stores whose `read()` returns an arbitrary function `nm i` of what `write` was
+    given (`Model/ExecNorm.lean`).  `P.N nm v` is `v` computed from scratch with the result of every stored call passing through
+    its store.  `w0'` is the state of the normalising stores, `w0` the same state with the values as they were written
+    (`Start`: same modified times; except in the stores this run rewrites anyway, `w0'` holds the normalised values).  After
+    a run that returns normally under ANY schedule every non-source store holds the normalised from-scratch value, with the
+    modified time of the plain run, and `run` returns the normalised from-scratch value of the requested output. -/
+theorem C03_end_to_end_norm {P : Input} (nm : Nat → V → V) {w0 w0' : World} {F : Option Int} {c0 : Int}
+    (S : Setup P w0 F c0) (H : Start P nm w0 w0')
+    {cfg : Engine.Cfg} (hw : 1 ≤ cfg.workers) {s : Engine.St} (h : Engine.Reach (engineGraph P) cfg s)
+    (hc : s.coord = .returned false) (hf : s.failed = []) :
+    let xf := execOrder P (initX w0 c0) s.okd
+    let xn := execOrderN P nm (initX w0' c0) s.okd
+    (∀ i, P.regOf i = some false → ∃ t, xn.w.st i = some (P.N nm (FS P.toLPlan w0 i), t) ∧ xf.w.mtime i = some t) ∧
+    (∀ o, P.out = some o → o ∈ P.nodes → ∀ a, physOut P = some a → xn.get P a = P.N nm (FS P.toLPlan w0 o)) := by
+  intro xf xn
+  have I : XInv P w0 c0 s.okd xf := xinv_reach S h
+  have J : Sim P nm s.okd xf xn := sim_reach S H h
+  have hall := (Engine.C04_exact (engine_wf P) hw h (rank := id) (engine_ranked S.wf) hc hf).2
+  obtain ⟨_, _, hstored, hout⟩ := C03_end_to_end S hw h hc hf
+  constructor
+  · intro i hri
+    obtain ⟨t, ht⟩ := hstored i hri
+    have hct : xn.w.content i = (xf.w.content i).map (P.N nm) := by
+      apply J.ct i
+      by_cases hst : P.isStale i = true
+      · exact Or.inl ((hall _).mpr (write_kept S.wf hri hst))
+      · exact Or.inr (fun hh => hst hh.2)
+    have hmt := J.mt i
+    have ht' : xf.w.st i = some (FS P.toLPlan w0 i, t) := ht
+    simp only [World.content, World.mtime, ht', Option.map_some] at hct hmt
+    refine ⟨t, ?_, by simp [World.mtime, ht']⟩
+    cases hx : xn.w.st i with
+    | none => rw [hx] at hct; cases hct
+    | some vt =>
+      rw [hx] at hct hmt
+      simp only [Option.map_some, Option.some.injEq] at hct hmt
+      cases vt; simp_all
+  · intro o ho hon a ha
+    have hplain := hout o ho hon a ha
+    simp only [physOut, ho, Option.map_some, Option.some.injEq] at ha
+    cases hr : P.regOf o with
+    | some sr =>
+      simp only [hr, Option.isSome_some, if_true] at ha
+      subst ha
+      have hb : PN.read o ∈ (physBuild P).nodes := read_mem (r := (o, sr)) (mem_of_regOf hr)
+      have hk := out_kept (P := P) (a := .read o) (by simp [physOut, ho, hr]) hb
+      have hok := (hall _).mpr (engine_of_final hk rfl)
+      simp only [XSt.get, J.rd o hok, I.readOk o hok, Option.map_some, Option.getD_some]
+    | none =>
+      simp only [hr, Option.isSome_none, Bool.false_eq_true, if_false] at ha
+      subst ha
+      by_cases hl : P.lits.contains o = true
+      · rw [← hplain]
+        simp only [XSt.get, hl, if_true]
+        rw [N_app_plain (by rw [hr]; simp)]; rfl
+      · have hl' : P.lits.contains o = false := by simpa using hl
+        have hk := out_kept (P := P) (a := .orig o) (by simp [physOut, ho, hr]) (orig_mem hon)
+        have hok := (hall _).mpr (engine_of_final hk (by simpa [PN.isLit] using hl'))
+        obtain ⟨args, h1, h2⟩ := J.og o hok hl'
+        rw [← hplain]
+        have h1' : (execOrder P (initX w0 c0) s.okd).slot (PN.orig o) = some (V.app o args) := h1
+        simp only [XSt.get, hl', Bool.false_eq_true, if_false, h1', Option.getD_some]
+        rw [h2, N_app_plain (by rw [hr]; simp)]; rfl
+
 /-! Non-vacuity of the end-to-end theorems: source 0 → stored call 1 → stored call 2 (the output); the source holds a
     value, both stored values are missing.  The hypotheses `Setup` hold, a schedule of the engine model runs the physical
     plan to a normal return, and the execution leaves `a2(a1(s0.1))` in store 2 and in the output slot. -/
@@ -209,6 +275,21 @@ example : ((execOrder exQ (initX w0q 2) [4, 5, 7, 9, 10, 12, 14]).w.st 2).map (f
     = some ("a2(a1(s0.1))", 3) := by decide
 example : ((execOrder exQ (initX w0q 2) [4, 5, 7, 9, 10, 12, 14]).get exQ (.read 2)).toStr = "a2(a1(s0.1))" := by decide
 example : (FS exQ.toLPlan w0q 2).toStr = "a2(a1(s0.1))" := by decide
+
+/-- ... and with normalising stores (`tagNorm i v` = `a(1000000+i)(v)`, a fresh function symbol per store): store 2 is left
+    holding `norm₂(a2(norm₁(a1(s0.1))))` — call 2 received the READ-BACK value of store 1 — and that is what `run` returns. -/
+theorem exQ_start : Start exQ tagNorm w0q w0q where
+  mt := fun _ => rfl
+  ct := fun i _ => by
+    by_cases h0 : i = 0
+    · subst h0; simp [World.content, w0q, Input.N, normalise]
+    · simp [World.content, w0q, h0]
+
+example : ((execOrderN exQ tagNorm (initX w0q 2) [4, 5, 7, 9, 10, 12, 14]).w.st 2).map (fun p => (p.1.toStr, p.2))
+    = some ("a1000002(a2(a1000001(a1(s0.1))))", 3) := by decide
+example : ((execOrderN exQ tagNorm (initX w0q 2) [4, 5, 7, 9, 10, 12, 14]).get exQ (.read 2)).toStr
+    = "a1000002(a2(a1000001(a1(s0.1))))" := by decide
+example : (exQ.N tagNorm (FS exQ.toLPlan w0q 2)).toStr = "a1000002(a2(a1000001(a1(s0.1))))" := by decide
 
 end ExQ
 
